@@ -119,7 +119,7 @@ def manageCanaryPodFailures (pods : List Pod) (canary : Option Canary) (paramsSt
     let conds := updateCond conds now "Canary-Paused" (boolCond s.isPaused) s.pausedReason "" false true
     let lastRestart : Time := match restartCond with | some rc => rc.lastUpdate | none => zeroTime
     let conds :=
-      if !s.newRestartTime.isZero && s.newRestartTime > lastRestart then
+      if !isZeroTime (s.newRestartTime) && s.newRestartTime > lastRestart then
         updateCond conds s.newRestartTime "PodRestarting" "True" s.cannotStartPodReason s.restartingPodStatus false true
       else conds
     let conds := updateCond conds now "PodCannotStart" (boolCond s.cannotStart) s.cannotStartPodReason s.cannotStartPodStatus false true
